@@ -127,7 +127,7 @@ func (w *W) helper(r *rng.R, recvs []string, uses []string) string {
 	w.N++
 	n := w.N
 	g := &bodyGen{r: r, n: &w.N, uses: uses}
-	k := r.Below(10)
+	k := r.Below(12)
 	if k == 5 && len(recvs) == 0 {
 		k = 0
 	}
@@ -152,6 +152,11 @@ func (w *W) helper(r *rng.R, recvs []string, uses []string) string {
 		return doc + fmt.Sprintf("func helperG%d[T any](x T) T { return x }", n)
 	case 8:
 		return doc + fmt.Sprintf("type (\n\thelperX%d int\n\thelperY%d string\n)", n, n)
+	case 10:
+		// the block-comment terminator without an opener, inside a string
+		return doc + fmt.Sprintf("const helperE%d = \"^.*/static/%d\"", n, n)
+	case 11:
+		return doc + fmt.Sprintf("func helperS%d(p string) string {\n\treturn p + `**/` + \"a*/b\"\n}", n)
 	default:
 		return doc + fmt.Sprintf("type helperI%d interface {\n\tM() int\n}", n)
 	}
